@@ -44,11 +44,12 @@ Proof. intros [A B K C D E F G]. constructor; assumption. Qed.
 Lemma inv_wq_change s q : InvV s -> InvV (set_wq q s).
 Proof. intros [A B K C D E F G]. constructor; assumption. Qed.
 
-(* store object v' at address a, journal the address, possibly index it *)
-Lemma inv_touch s a v' idx' : InvV s -> v_addr v' = a -> (idx' = vl_index s \/ idx' = sins (vl_index s) a) ->
+(* store object v' at address a, journal the address; the index may change at a only *)
+Lemma inv_touch s a v' idx' : InvV s -> v_addr v' = a -> ssorted idx' ->
+  (forall x, x <> a -> smem idx' x = smem (vl_index s) x) ->
   InvV (mkVals (vl_trie s) (ins (vl_objs s) a v') (vl_dirty s) (sins (vl_jd s) a) idx' (vl_stat s) (vl_mod s) (vl_wq s)).
 Proof.
-  intros [A B K C D E F G] Hv Hi.
+  intros [A B K C D E F G] Hv Hs Hi.
   constructor; cbn [vl_trie vl_objs vl_dirty vl_jd vl_index]; try assumption.
   - intros x y. rewrite find_ins. unfold vclean; cbn [vl_dirty vl_jd]. rewrite smem_sins.
     destruct (N.eqb x a); cbn; [intros _ [_ H]; discriminate|].
@@ -56,15 +57,18 @@ Proof.
   - intros x y. rewrite find_ins. destruct (N.eqb x a) eqn:E1; [intros [= <-]; lia|apply K].
   - intros x H. rewrite find_ins. destruct (N.eqb x a); [discriminate|]. apply C; exact H.
   - intros x. rewrite find_ins, smem_sins. destruct (N.eqb x a); cbn; [discriminate|]. apply D.
-  - destruct Hi as [->| ->]; [exact F|apply ssorted_sins; exact F].
   - intros x. unfold vclean; cbn [vl_dirty vl_jd]. rewrite smem_sins.
     destruct (N.eqb x a) eqn:E1; cbn; [intros [_ H]; discriminate|]. intros [H1 H2].
-    destruct Hi as [->| ->]; [|rewrite smem_sins, E1; cbn]; apply G; split; assumption.
+    rewrite Hi by lia. apply G; split; assumption.
 Qed.
 
 Definition put_val (v : validator) (s : vals) : vals := vl_journal (v_addr v) (set_validator v s).
 Lemma inv_put_val s v : InvV s -> InvV (put_val v s).
-Proof. intros I. apply (inv_touch s (v_addr v) v (sins (vl_index s) (v_addr v)) I eq_refl). right; reflexivity. Qed.
+Proof.
+  intros I. apply (inv_touch s (v_addr v) v (sins (vl_index s) (v_addr v)) I eq_refl).
+  - apply ssorted_sins, (iv_isorted s I).
+  - intros x Hx. rewrite smem_sins. destruct (N.eqb x (v_addr v)) eqn:E; [lia|reflexivity].
+Qed.
 
 Lemma put_val_eq v s : vl_journal (v_addr v) (set_validator v s) = put_val v s. Proof. reflexivity. Qed.
 Lemma set_journal_comm v s : set_validator v (vl_journal (v_addr v) s) = put_val v s. Proof. reflexivity. Qed.
@@ -88,20 +92,32 @@ Proof.
 Qed.
 
 
+Lemma inv_mark_removed s idx v : InvV s -> ssorted idx ->
+  (forall x, x <> v_addr v -> smem idx x = smem (vl_index s) x) ->
+  InvV (vl_decr v (mkVals (vl_trie s) (ins (vl_objs s) (v_addr v) (set_deleted true v)) (vl_dirty s)
+                          (sins (vl_jd s) (v_addr v)) (sdel idx (v_addr v)) (vl_stat s) (vl_mod s) (vl_wq s))).
+Proof.
+  intros I Hs Hi. apply inv_decr.
+  apply (inv_touch s (v_addr v) (set_deleted true v) (sdel idx (v_addr v)) I).
+  - destruct v; reflexivity.
+  - apply ssorted_sdel; exact Hs.
+  - intros x Hx. rewrite smem_sdel by exact Hs. destruct (N.eqb x (v_addr v)) eqn:E; [lia|]. cbn. apply Hi; exact Hx.
+Qed.
+
 Lemma inv_remove_validator a s : InvV s -> InvV (remove_validator a s).
 Proof.
   intros I. unfold remove_validator.
-  destruct (match find (vl_objs s) a with Some v => Some v | None => load_validator s a end) as [v|] eqn:Ec; [|exact I].
-  apply inv_decr.
-  assert (Hv : v_addr v = a).
-  { destruct (find (vl_objs s) a) eqn:Fa.
-    - injection Ec as <-. eapply iv_key; [exact I|exact Fa].
-    - rewrite (load_validator_spec s a I) in Ec. eapply (proj2 (tv_live _ (iv_trie _ I) _ _ Ec)). }
-  destruct (find (vl_objs s) a) eqn:Fa.
-  - apply (inv_touch s a (set_deleted true v) (vl_index s) I); [exact Hv|left; reflexivity].
-  - unfold set_validator; cbn [vl_trie vl_objs vl_dirty vl_jd vl_index vl_stat vl_mod vl_wq].
-    rewrite Hv, ins_ins.
-    apply (inv_touch s a (set_deleted true v) (sins (vl_index s) a) I); [exact Hv|right; reflexivity].
+  destruct (find (vl_objs s) a) as [v|] eqn:Fa.
+  - destruct (v_deleted v); [exact I|].
+    unfold mark_removed. apply (inv_mark_removed s (vl_index s) v I (iv_isorted s I)). auto.
+  - destruct (load_validator s a) as [v|] eqn:El; [|exact I].
+    rewrite (load_validator_spec s a I) in El.
+    pose proof (proj2 (tv_live _ (iv_trie _ I) _ _ El)) as Hv.
+    unfold mark_removed, set_validator; cbn [vl_trie vl_objs vl_dirty vl_jd vl_index vl_stat vl_mod vl_wq].
+    rewrite ins_ins.
+    apply (inv_mark_removed s (sins (vl_index s) (v_addr v)) v I).
+    + apply ssorted_sins, (iv_isorted s I).
+    + intros x Hx. rewrite smem_sins. destruct (N.eqb x (v_addr v)) eqn:E; [lia|reflexivity].
 Qed.
 
 Lemma fold_sins_sorted_id l : ssorted l -> forall x, smem (fold_left sins l []) x = smem l x.
@@ -114,7 +130,7 @@ Proof.
   { intros s0 I0. destruct (vl_index s); assumption. }
   destruct (vt_index (vl_trie s)) as [l|] eqn:El; [|destruct (vl_index s); exact I]. rewrite idx_rt.
   cut (InvV (mkVals (vl_trie s) (vl_objs s) (vl_dirty s) (vl_jd s) (fold_left sins l []) (vl_stat s) (vl_mod s) (vl_wq s))).
-  { intros I0. destruct (vl_index s); [exact I|exact I0]. }
+  { intros I0. destruct (vl_index s); [exact I0|exact I]. }
   destruct (tv_index _ (iv_trie _ I) l El) as [Hs Hm].
   destruct I as [A B K C D E F G].
   constructor; cbn [vl_trie vl_objs vl_dirty vl_jd vl_index]; try assumption.
@@ -157,7 +173,7 @@ Lemma flush_val_frame de s a :
   vt_queue (vl_trie s') = vt_queue (vl_trie s).
 Proof.
   unfold flush_val. destruct (find (vl_objs s) a) as [v|]; [|cbn; repeat split; reflexivity].
-  destruct (v_deleted v || (de && is_invalid v)); cbn; repeat split; reflexivity.
+  destruct (v_deleted v || (de && is_invalid v)); [destruct (v_deleted v)|]; cbn; repeat split; reflexivity.
 Qed.
 
 (* what one address looks like after the loop went over the list l *)
@@ -183,15 +199,22 @@ Proof.
   intros Hs Hi. unfold flush_val, flushed_at, same_at, val_goes.
   destruct (find (vl_objs s) a) as [v|] eqn:Fa; [|cbn; repeat split; auto].
   destruct (v_deleted v || (de && is_invalid v)) eqn:Eg; cbn [vl_trie vl_objs vl_index vt_info vl_decr].
-  - repeat split.
-    + apply sorted_del; exact Hs.
-    + apply ssorted_sdel; exact Hi.
-    + rewrite find_del by exact Hs. rewrite N.eqb_refl. reflexivity.
-    + rewrite find_ins, N.eqb_refl. reflexivity.
-    + rewrite smem_sdel by exact Hi. rewrite N.eqb_refl. reflexivity.
-    + rewrite find_del by exact Hs. destruct (N.eqb x a) eqn:E; [lia|reflexivity].
-    + rewrite find_ins. destruct (N.eqb x a) eqn:E; [lia|reflexivity].
-    + rewrite smem_sdel by exact Hi. destruct (N.eqb x a) eqn:E; [lia|reflexivity].
+  - assert (Hgo : forall s1, vl_trie s1 = mkVT (del (vt_info (vl_trie s)) a) (vt_index (vl_trie s)) (vt_stat (vl_trie s)) (vt_queue (vl_trie s)) ->
+                  vl_objs s1 = ins (vl_objs s) a (set_deleted true v) -> vl_index s1 = sdel (vl_index s) a ->
+                  sorted (vt_info (vl_trie s1)) /\ ssorted (vl_index s1) /\
+                  (find (vt_info (vl_trie s1)) a = None /\ find (vl_objs s1) a = Some (set_deleted true v) /\ smem (vl_index s1) a = false) /\
+                  (forall x, x <> a -> find (vt_info (vl_trie s1)) x = find (vt_info (vl_trie s)) x /\
+                                       find (vl_objs s1) x = find (vl_objs s) x /\ smem (vl_index s1) x = smem (vl_index s) x)).
+    { intros s1 E1 E2 E3. rewrite E1, E2, E3. cbn [vt_info]. repeat split.
+      + apply sorted_del; exact Hs.
+      + apply ssorted_sdel; exact Hi.
+      + rewrite find_del by exact Hs. rewrite N.eqb_refl. reflexivity.
+      + rewrite find_ins, N.eqb_refl. reflexivity.
+      + rewrite smem_sdel by exact Hi. rewrite N.eqb_refl. reflexivity.
+      + rewrite find_del by exact Hs. destruct (N.eqb x a) eqn:E; [lia|reflexivity].
+      + rewrite find_ins. destruct (N.eqb x a) eqn:E; [lia|reflexivity].
+      + rewrite smem_sdel by exact Hi. destruct (N.eqb x a) eqn:E; [lia|reflexivity]. }
+    destruct (v_deleted v); apply Hgo; reflexivity.
   - repeat split.
     + apply sorted_ins; exact Hs.
     + apply ssorted_sins; exact Hi.
